@@ -410,6 +410,22 @@ func (g *G) redir() {
 	}
 }
 
+// gluedRedir writes a redirection without a leading blank.
+func (g *G) gluedRedir() {
+	if g.O.Heredocs && g.canNewlineLater() && g.S.Chance(1, 4) {
+		g.heredoc()
+		return
+	}
+	op := g.S.Pick([]string{">", "<", ">>", ">|", "<>", ">&", "<&"})
+	g.b.WriteString(op)
+	switch op {
+	case ">&", "<&":
+		g.b.WriteString(g.S.Pick([]string{"1", "2", "-"}))
+	default:
+		g.word(false)
+	}
+}
+
 // canNewlineLater: a here-document may be started here because a newline token
 // can be written before the construct it sits in ends.
 func (g *G) canNewlineLater() bool {
@@ -564,6 +580,10 @@ func (g *G) simpleCmd() {
 			g.word(true)
 			if g.S.Chance(1, 10) {
 				g.redir()
+			} else if g.S.Chance(1, 14) {
+				// a redirection glued to the word ("a${x}2>f": the digits belong to the word, it is not an IO_NUMBER)
+				g.b.WriteString(g.S.Pick([]string{"", "2", "0", "10"}))
+				g.gluedRedir()
 			}
 		}
 		for g.S.Chance(1, 5) || g.O.HDBias && g.S.Chance(1, 4) {
